@@ -18,6 +18,7 @@ import (
 	"encoding/json"
 	"fmt"
 	"os"
+	"runtime/debug"
 	"sort"
 	"strings"
 	"testing"
@@ -36,11 +37,11 @@ type vkC04Ev struct {
 	TTL  uint32 `json:"ttl,omitempty"`
 	// delegation lease in seconds from now (0 = none). For alx / alz it is the lease of the chain
 	// through which the chase LEG (bx.t. / bz.t.) is resolved; the alias's own zone has none.
-	Cut int `json:"cut,omitempty"`
-	Sig  int    `json:"sig,omitempty"` // RRSIG expiring this many seconds from now (0 = unsigned)
-	Min  uint32 `json:"min,omitempty"` // SOA minimum (neg)
-	Val  bool   `json:"val,omitempty"` // neg: locally validated proof (admits subtree cut + RFC 8198 proof)
-	D    int    `json:"d,omitempty"`   // adv: seconds
+	Cut int    `json:"cut,omitempty"`
+	Sig int    `json:"sig,omitempty"` // RRSIG expiring this many seconds from now (0 = unsigned)
+	Min uint32 `json:"min,omitempty"` // SOA minimum (neg)
+	Val bool   `json:"val,omitempty"` // neg: locally validated proof (admits subtree cut + RFC 8198 proof)
+	D   int    `json:"d,omitempty"`   // adv: seconds
 }
 
 func (e vkC04Ev) String() string {
@@ -124,11 +125,11 @@ const (
 	// (a chain the nested pipeline completes in one lap never exercises the later laps).
 	vkAl2Name = "al2.t."
 	vkMidName = "mid.t."
-	vkNName  = "n.t."
-	vkNNName = "nn.t."
-	vkXNName = "x.n.t."
-	vkQ5Name = "q5.t." // second denied name, covered by a DIFFERENT NSEC (q0.t. -> q9.t.) of the same zone
-	vkQ7Name = "q7.t." // probe inside that second span
+	vkNName   = "n.t."
+	vkNNName  = "nn.t."
+	vkXNName  = "x.n.t."
+	vkQ5Name  = "q5.t." // second denied name, covered by a DIFFERENT NSEC (q0.t. -> q9.t.) of the same zone
+	vkQ7Name  = "q7.t." // probe inside that second span
 	// bx.t. answers with a BARE NXDOMAIN, bz.t. with a bare empty NOERROR: no answer, no authority —
 	// what filtering upstreams and sloppy authorities of unsigned zones hand out (the resolver fails
 	// them under SIGNED zones since 3d9aea3; the cache behind a forwarder still sees them). Such a
@@ -189,6 +190,12 @@ func vkPackName(name string) []byte {
 	}
 	return buf[:n]
 }
+
+// Every replay builds a fresh cache (tens of megabytes of tables). With the collector lagging on a busy machine the
+// heap of a thorough-tier shard ran into the 8 GiB address-space limit the driver sets although almost none of it
+// was live (each shard died "out of memory" after ~6 minutes, and again when retried alone). A soft limit well
+// below that makes the collector keep up instead.
+func init() { debug.SetMemoryLimit(3 << 30) }
 
 func clampTTL(d time.Duration) time.Duration {
 	if d < 5*time.Second {
